@@ -14,7 +14,7 @@ from . import c18
 ID = 'C10'
 WORLD = 'gdb'
 LEVEL = 'exploration'
-RUNS = {'quick': 1600}
+RUNS = {'quick': 9600}
 BUDGET_S = {'thorough': 600}
 RULE = ('one evaluation = one simulated GDB session: messages on 1-3 connections from 1-3 inferior threads interleaved by the seeded '
         'scheduler with user commands typed whenever the inferior is halted (by a matching message, or by a user interrupt): '
